@@ -73,7 +73,12 @@ impl<F: TryFuture> TryJoinAll<F> {
     /// its slot in the queue is vacant; `skip` names a slot that was vacated without an
     /// output being written (the future that failed).
     fn drop_outputs(&mut self, skip: Option<usize>) {
-        let mut output = core::mem::replace(&mut self.output, Vec::new().into_boxed_slice());
+        let output = core::mem::replace(&mut self.output, Vec::new().into_boxed_slice());
+        self.drop_outputs_in(output, skip);
+    }
+
+    /// The same for a buffer that has already been taken out of `self.output`.
+    fn drop_outputs_in(&mut self, mut output: Box<[MaybeUninit<F::Ok>]>, skip: Option<usize>) {
         for (i, out) in output.iter_mut().enumerate() {
             if Some(i) != skip && self.queue.tasks.get(i).is_none() {
                 // SAFETY: slot `i` is vacant and is not the failed one, so `output[i]` was written
@@ -95,15 +100,23 @@ impl<F: TryFuture> Future for TryJoinAll<F> {
 
     fn poll(mut self: Pin<&mut Self>, cx: &mut Context<'_>) -> Poll<Self::Output> {
         loop {
-            match self.as_mut().queue.poll_inner(cx) {
+            match self.as_mut().queue.poll_inner_no_remove(cx, F::poll) {
                 Poll::Ready(Some((i, Ok(t)))) => {
+                    // store the output before the future is destroyed: should its destructor
+                    // panic, "slot vacant <=> output written" still holds for `drop_outputs`
                     self.output[i].write(t);
+                    self.queue.tasks.remove(i);
                 }
                 Poll::Ready(Some((i, Err(e)))) => {
+                    // take the buffer out before the failed future is destroyed: should its
+                    // destructor panic, `Drop` finds an empty buffer instead of an unwritten entry
+                    let output =
+                        core::mem::replace(&mut self.output, Vec::new().into_boxed_slice());
+                    self.queue.tasks.remove(i);
                     // release the outputs collected so far and cancel the remaining futures:
                     // nothing is leaked, and a further poll finds an empty queue and an empty buffer
                     // instead of entries that were never written.
-                    self.drop_outputs(Some(i));
+                    self.drop_outputs_in(output, Some(i));
                     for i in 0..self.queue.capacity() {
                         self.queue.tasks.remove(i);
                     }
